@@ -265,6 +265,90 @@ def loop_placement():
     return dict(pre=pre, head=head, writeback=writeback, gets=gets, reexpand=reexpand)
 
 
+# ---- read_config: the loop that overlays the [supervisord] environment with each program's own ---------------------
+_ENV_COPIES = ('section.environment.copy()', 'dict(section.environment)', 'copy.copy(section.environment)', 'dict(**section.environment)',
+               'dict(section.environment.items())', 'copy.deepcopy(section.environment)')
+
+
+def env_merge_loop():
+    """-> dict(copied=bool): `for group in section.process_group_configs: for proc in group.process_configs:
+           env = section.environment.copy(); env.update(proc.environment); proc.environment = env`
+    copied = the dictionary the program's environment is merged into is a fresh one per process (a statement of another
+    shape is an extraction error: the model does not know it)."""
+    f = _find(_tree(OPT), 'ServerOptions.read_config')
+    outer = [n for n in ast.walk(f) if isinstance(n, ast.For) and ast.unparse(n.iter) == 'section.process_group_configs']
+    if len(outer) != 1 or not isinstance(outer[0].target, ast.Name):
+        raise ValueError('read_config: the loop over section.process_group_configs was not found')
+    g = outer[0].target.id
+    if len(outer[0].body) != 1 or not isinstance(outer[0].body[0], ast.For) or ast.unparse(outer[0].body[0].iter) != g + '.process_configs' \
+            or not isinstance(outer[0].body[0].target, ast.Name):
+        raise ValueError('read_config: environment loop: the inner loop over the process configs was not found')
+    inner = outer[0].body[0]
+    pr = inner.target.id
+    body = [st for st in inner.body if not isinstance(st, ast.Pass)]
+    if len(body) != 3:
+        raise ValueError('read_config: environment loop body not understood: ' + '; '.join(ast.unparse(st) for st in body)[:120])
+    a, u, w = body
+    if not (isinstance(a, ast.Assign) and len(a.targets) == 1 and isinstance(a.targets[0], ast.Name)):
+        raise ValueError('read_config: environment loop: first statement is not a binding: ' + ast.unparse(a))
+    env = a.targets[0].id
+    src = ast.unparse(a.value)
+    if src in _ENV_COPIES:
+        copied = True
+    elif src == 'section.environment':
+        copied = False
+    else:
+        raise ValueError('read_config: %s = %s: not a binding the model knows' % (env, src))
+    if ast.unparse(u) != '%s.update(%s.environment)' % (env, pr):
+        raise ValueError('read_config: environment loop: expected %s.update(%s.environment), found %s' % (env, pr, ast.unparse(u)))
+    if ast.unparse(w) != '%s.environment = %s' % (pr, env):
+        raise ValueError('read_config: environment loop: expected %s.environment = %s, found %s' % (pr, env, ast.unparse(w)))
+    return dict(copied=copied)
+
+
+# ---- read_include_config: what %(here)s of an included file is replaced by -----------------------------------------
+def include_here():
+    """-> 'matchedFile' | 'pattern' | 'mainFile': the directory handed to parser.expand_here() after an included file has been
+    read, and the requirement that this happens once per matched file (inside the loop over the matches)."""
+    f = _find(_tree(OPT), 'Options.read_include_config')
+    loops = [n for n in ast.walk(f) if isinstance(n, ast.For) and isinstance(n.target, ast.Name)]
+    pat = [n for n in loops if ast.unparse(n.iter) == 'files']
+    if len(pat) != 1:
+        raise ValueError('read_include_config: the loop over the include patterns was not found')
+    pvar = pat[0].target.id
+    match = [n for n in ast.walk(pat[0]) if isinstance(n, ast.For) and n is not pat[0] and isinstance(n.target, ast.Name)
+             and ast.unparse(n.iter) in ('sorted(filenames)', 'filenames')]
+    if len(match) != 1:
+        raise ValueError('read_include_config: the loop over the matched file names was not found')
+    fvar = match[0].target.id
+    calls = [n for n in ast.walk(match[0]) if isinstance(n, ast.Call) and ast.unparse(n.func) == 'parser.expand_here']
+    if len(calls) != 1 or len(calls[0].args) != 1:
+        raise ValueError('read_include_config: expected exactly one parser.expand_here(...) per matched file, found %d' % len(calls))
+    others = [n for n in ast.walk(pat[0]) if isinstance(n, ast.Call) and ast.unparse(n.func) == 'parser.expand_here' and n is not calls[0]]
+    if others:
+        raise ValueError('read_include_config: parser.expand_here called outside the loop over the matched files')
+    arg = calls[0].args[0]
+    # a local name: the (only) assignment it stands for
+    hops = 0
+    while isinstance(arg, ast.Name) and hops < 4:
+        asg = [n for n in ast.walk(f) if isinstance(n, ast.Assign) and len(n.targets) == 1 and isinstance(n.targets[0], ast.Name)
+               and n.targets[0].id == arg.id]
+        if len(asg) != 1:
+            raise ValueError('read_include_config: expand_here(%s): %d assignments to that name' % (arg.id, len(asg)))
+        arg = asg[0].value
+        hops += 1
+    src = ast.unparse(arg).replace(' ', '')
+    forms = lambda v: ('os.path.abspath(os.path.dirname(%s))' % v, 'os.path.dirname(os.path.abspath(%s))' % v,
+                       'os.path.dirname(os.path.realpath(%s))' % v, 'os.path.realpath(os.path.dirname(%s))' % v)
+    if src in forms(fvar):
+        return 'matchedFile'
+    if src in forms(pvar):
+        return 'pattern'
+    if src in ('self.here',) + forms('fp.name') + forms('self.configfile'):
+        return 'mainFile'
+    raise ValueError('read_include_config: expand_here(%s): not a directory the model knows' % src)
+
+
 _UNSET = re.compile(r'^(no |do not)', re.I)
 _OPAQUE = re.compile(r'^(uses |value of|:|socket\.)', re.I)
 
@@ -403,6 +487,12 @@ def TABLES():
         '(%s, %s)' % (lean_str(o), 'true' if p else 'false') for o, p in lp['gets']))
     L.append('/-- the looked-up (already expanded) log file name is expanded a second time -/')
     L.append('def pfsLogfileReexpanded : Bool := %s' % ('true' if lp['reexpand'] else 'false'))
+    L.append('')
+    L.append("/-- read_config: every process configuration gets a dictionary of its own (`env = section.environment.copy()`) when the")
+    L.append("    [supervisord] environment is overlaid with the program's -/")
+    L.append('def rcEnvCopied : Bool := %s' % ('true' if env_merge_loop()['copied'] else 'false'))
+    L.append('/-- read_include_config: the directory parser.expand_here() is given after reading one matched file -/')
+    L.append('def includeHereSrc : HereSrc := .%s' % include_here())
     return L
 
 
